@@ -19,28 +19,30 @@ import (
 
 // StressRec is the outcome of one un-gated real-thread run (C17), judged by StoreConcTrace.tla.
 type StressRec struct {
-	Tr        int      `json:"tr"`
-	Kind      string   `json:"kind"`
-	N         int      `json:"n"`
-	Writers   int      `json:"writers"`
-	Bsz       int      `json:"bsz"`
-	Deleter   bool     `json:"deleter"`
-	HeadSeqs  [][]int  `json:"headseqs"` // per observer: Head().Height() samples (run-length compressed)
-	HsSeqs    [][]int  `json:"hsseqs"`   // per observer: Height() samples
-	HeadBad   int      `json:"headBad"`  // Head() header not retrievable by height / by hash when re-read at once
-	SyncedBad int      `json:"syncedBad"`
-	FinalHead int      `json:"finalHead"`
-	FinalTail int      `json:"finalTail"`
-	FinalHs   int      `json:"finalHs"`
-	Missing   []int    `json:"missing"` // heights in finalTail..finalHead not readable at the end
-	TailWant  int      `json:"tailWant"`
-	Errors    int      `json:"errors"`
-	Readers   []RdrOut `json:"readers"`
-	Appended  []int    `json:"appended"`
-	Height    int      `json:"height"`
-	Head      int      `json:"head"`
-	HeadSeq   []int    `json:"headseq"`
-	HsSeq     []int    `json:"hsseq"`
+	Tr          int      `json:"tr"`
+	Kind        string   `json:"kind"`
+	N           int      `json:"n"`
+	Writers     int      `json:"writers"`
+	Bsz         int      `json:"bsz"`
+	Deleter     bool     `json:"deleter"`
+	HeadSeqs    [][]int  `json:"headseqs"` // per observer: Head().Height() samples (run-length compressed)
+	HsSeqs      [][]int  `json:"hsseqs"`   // per observer: Height() samples
+	HeadBad     int      `json:"headBad"`  // Head() header not retrievable by height / by hash when re-read at once
+	SyncedBad   int      `json:"syncedBad"`
+	FinalHead   int      `json:"finalHead"`
+	FinalTail   int      `json:"finalTail"`
+	FinalHs     int      `json:"finalHs"`
+	Missing     []int    `json:"missing"` // heights in finalTail..finalHead not readable at the end
+	TailWant    int      `json:"tailWant"`
+	RestartHead int      `json:"restartHead"` // Head / Tail of a fresh Store on the same datastore after a clean Stop
+	RestartTail int      `json:"restartTail"`
+	Errors      int      `json:"errors"`
+	Readers     []RdrOut `json:"readers"`
+	Appended    []int    `json:"appended"`
+	Height      int      `json:"height"`
+	Head        int      `json:"head"`
+	HeadSeq     []int    `json:"headseq"`
+	HsSeq       []int    `json:"hsseq"`
 }
 
 func compress(s []int) []int {
@@ -61,7 +63,8 @@ func stressOnce(t *testing.T, id int, rnd *rand.Rand) StressRec {
 	out := StressRec{Tr: id, Kind: "stress", N: n, Writers: w, Bsz: bsz, Deleter: withDel, Missing: []int{},
 		Readers: []RdrOut{}, Appended: []int{}, HeadSeq: []int{}, HsSeq: []int{}}
 	chain := vh.NewChain("c", 1, n+1, time.Now().Add(-time.Hour), time.Second, 0)
-	st, err := store.NewStore[*vh.Header](rec.New(), store.WithWriteBatchSize(bsz), store.WithStoreCacheSize(8), store.WithIndexCacheSize(8))
+	rs := rec.New()
+	st, err := store.NewStore[*vh.Header](rs, store.WithWriteBatchSize(bsz), store.WithStoreCacheSize(8), store.WithIndexCacheSize(8))
 	if err != nil {
 		t.Fatal(err)
 	}
@@ -210,6 +213,17 @@ func stressOnce(t *testing.T, id int, rnd *rand.Rand) StressRec {
 	out.TailWant = tailWant
 	out.HeadBad, out.SyncedBad, out.Errors = int(headBad.Load()), int(syncedBad.Load()), int(errs.Load())
 	_ = st.Stop(bg)
+	out.RestartHead, out.RestartTail = -1, -1
+	if st2, err := store.NewStore[*vh.Header](rs, store.WithWriteBatchSize(bsz)); err == nil && st2.Start(bg) == nil {
+		out.RestartHead, out.RestartTail = 0, 0
+		if hd, err := st2.Head(bg); err == nil {
+			out.RestartHead = int(hd.Height())
+		}
+		if tl, err := st2.Tail(bg); err == nil {
+			out.RestartTail = int(tl.Height())
+		}
+		_ = st2.Stop(bg)
+	}
 	return out
 }
 
